@@ -119,6 +119,11 @@ func runCase(phase string, i int) worker.Result {
 			}
 		}
 	}
+	// a push never completes before its successors are present (also when the call fails)
+	if len(e.Mon.Closure) > 0 {
+		res.Violate("push-before-successor", e.Mon.Closure[0], witness())
+		return res
+	}
 	// gauges and counters are judged whatever the outcome
 	for _, v := range e.Mon.CheckAccounting(conc, exempt) {
 		key := "accounting"
